@@ -1172,30 +1172,33 @@ struct TypeOps {
     void (*stride)(Case const&, Shape const&, StrideInfo const&);
     void (*mdstride)(Case const&, Shape const&, StrideInfo const&);
 };
-// Full = false ("light" types, C19_TYPE_L): extents + the three mappings + mdspan over layout_stride + transpose; the
-// mdspan<left/right> and mdarray suites (70 % of the compile time of a type) are instantiated for the full types only.
-template <typename E, bool Full>
+// Level 2 (C19_TYPE): everything.  Level 1 (C19_TYPE_L, "light"): no mdspan<left/right> and mdarray suites (they are 57 % of
+// the compile time of a type).  Level 0 (C19_TYPE_C, "core"): extents + layout_left/right mappings only.  The
+// static/dynamic pattern only matters inside etl::extents, which every level exercises completely; see gen/C19_gen.py.
+template <typename E, int Level>
 auto ops_for(char const* name) -> TypeOps
 {
     TypeOps t{};
     t.name = name;
     t.rank = static_cast<int>(E::rank());
     for (std::size_t r = 0; r < E::rank(); ++r) { t.st[r] = E::static_extent(r); }
-    t.imax     = imax<typename E::index_type>();
-    t.extents  = &check_extents<E>;
-    t.lr[0]    = &check_lr<E, etl::layout_left>;
-    t.lr[1]    = &check_lr<E, etl::layout_right>;
-    if constexpr (Full) {
+    t.imax    = imax<typename E::index_type>();
+    t.extents = &check_extents<E>;
+    t.lr[0]   = &check_lr<E, etl::layout_left>;
+    t.lr[1]   = &check_lr<E, etl::layout_right>;
+    if constexpr (Level >= 2) {
         t.md[0]  = &check_mdspan_lr<E, etl::layout_left>;
         t.md[1]  = &check_mdspan_lr<E, etl::layout_right>;
         t.arr[0] = &check_mdarray<E, etl::layout_left>;
         t.arr[1] = &check_mdarray<E, etl::layout_right>;
     }
-    t.stride   = &check_stride<E>;
-    t.mdstride = &check_mdspan_stride<E>;
-    if constexpr (E::rank() == 2) {
-        t.tr[0] = &check_transpose<E, etl::layout_left>;
-        t.tr[1] = &check_transpose<E, etl::layout_right>;
+    if constexpr (Level >= 1) {
+        t.stride   = &check_stride<E>;
+        t.mdstride = &check_mdspan_stride<E>;
+        if constexpr (E::rank() == 2) {
+            t.tr[0] = &check_transpose<E, etl::layout_left>;
+            t.tr[1] = &check_transpose<E, etl::layout_right>;
+        }
     }
     return t;
 }
@@ -1239,7 +1242,8 @@ void run_type(TypeOps const& t)
         vf::label("shape.has_zero_extent", zero);
         vf::label("shape.mixed_static_dynamic(rank>=2)", mixed);
         vf::label("shape.rank0", R == 0);
-        vf::label("type.full_suite(mdspan+mdarray)", t.md[0] != nullptr);
+        vf::label("type.level_full(mdspan+mdarray)", t.md[0] != nullptr);
+        vf::label("type.level_light_or_full(layout_stride)", t.stride != nullptr);
         auto nt = [&](bool extra) {
             if (zero || mixed || extra) { vf::nontrivial_count(); }
         };
@@ -1269,6 +1273,7 @@ void run_type(TypeOps const& t)
         for (int v = 0; v < nvar; ++v) {
             Case kv = k;
             kv.var  = v;
+            if (t.stride == nullptr) { break; }
             bool const w1 = want("layout_stride", kv);
             bool const w2 = want("mdspan_stride", kv);
             if (!w1 && !w2) { continue; }
@@ -1301,8 +1306,9 @@ void run_type(TypeOps const& t)
     }
 }
 
-#define C19_TYPE(name, I, ...)   ops_for<etl::extents<I __VA_OPT__(, ) __VA_ARGS__>, true>(name),
-#define C19_TYPE_L(name, I, ...) ops_for<etl::extents<I __VA_OPT__(, ) __VA_ARGS__>, false>(name),
+#define C19_TYPE(name, I, ...)   ops_for<etl::extents<I __VA_OPT__(, ) __VA_ARGS__>, 2>(name),
+#define C19_TYPE_L(name, I, ...) ops_for<etl::extents<I __VA_OPT__(, ) __VA_ARGS__>, 1>(name),
+#define C19_TYPE_C(name, I, ...) ops_for<etl::extents<I __VA_OPT__(, ) __VA_ARGS__>, 0>(name),
 TypeOps const g_table[] = {
 #include C19_TABLE
 };
